@@ -45,11 +45,52 @@ func (*lenOther) UnmarshalJSON([]byte) error { return nil }
 func (*lenNamed) UnmarshalCBOR([]byte) error { return nil }
 func (*lenNamed) UnmarshalJSON([]byte) error { return nil }
 
-var lenTags = []string{"eat-profile", "psa-profile", "my-profile", "other-profile", "named-profile"}
+// lenDeep: the profile field sits in the *second* embedded struct, behind one that has no profile field at all
+type lenMeta struct {
+	Note *string `cbor:"-75200,keyasint,omitempty" json:"note,omitempty"`
+}
+type lenInner struct {
+	Prof *string `cbor:"265,keyasint" json:"deep-profile"`
+}
+type lenDeep struct {
+	psa.IClaims `cbor:"-" json:"-"`
+	lenMeta
+	lenInner
+}
+
+// lenBad: the profile field found through embedding has no JSON tag (registration must be refused)
+type lenBadInner struct {
+	Prof *string `cbor:"265,keyasint"`
+}
+type lenBad struct {
+	psa.IClaims `cbor:"-" json:"-"`
+	lenMeta
+	lenBadInner
+}
+
+func (*lenDeep) UnmarshalCBOR([]byte) error { return nil }
+func (*lenDeep) UnmarshalJSON([]byte) error { return nil }
+func (*lenBad) UnmarshalCBOR([]byte) error  { return nil }
+func (*lenBad) UnmarshalJSON([]byte) error  { return nil }
+
+var lenTags = []string{"eat-profile", "psa-profile", "my-profile", "other-profile", "named-profile", "deep-profile"}
+
+const lenKinds = 8
+
+// tag: the JSON member identifying the profile of kind k; ok = false: no identifiable profile field
+func (p LenProfile) tag() (string, bool) {
+	switch {
+	case p.Kind < 5:
+		return lenTags[p.Kind], true
+	case p.Kind == 6:
+		return "deep-profile", true
+	}
+	return "", false
+}
 
 type LenProfile struct {
 	Name string
-	Kind int // index into lenTags; 5 = no identifiable profile field
+	Kind int // 0..4: index into lenTags; 5 = no identifiable profile field; 6 = lenDeep; 7 = lenBad
 }
 
 func (p LenProfile) GetName() string { return p.Name }
@@ -65,13 +106,17 @@ func (p LenProfile) GetClaims() psa.IClaims {
 		return &lenOther{}
 	case 4:
 		return &lenNamed{}
+	case 6:
+		return &lenDeep{}
+	case 7:
+		return &lenBad{}
 	}
 	return &noTagClaims{}
 }
 func (p LenProfile) proto() string {
 	tag := "-"
-	if p.Kind < 5 {
-		tag = hx([]byte(lenTags[p.Kind]))
+	if t, ok := p.tag(); ok {
+		tag = hx([]byte(t))
 	}
 	return "R~" + hx([]byte(p.Name)) + "~" + tag + "~x"
 }
@@ -208,7 +253,7 @@ func runC16(r *Run, rng *Rng, thorough bool) {
 		nExtra := rng.Intn(9) // 0..8 extra profiles
 		var pool []LenProfile
 		for i := 0; i < nExtra; i++ {
-			pool = append(pool, LenProfile{c16Names(i), rng.Intn(6)})
+			pool = append(pool, LenProfile{c16Names(i), rng.Intn(lenKinds)})
 		}
 		// candidates that must fail: builtin names, the default entry's name
 		pool = append(pool, LenProfile{psa.Profile1Name, 0}, LenProfile{psa.Profile2Name, 1}, LenProfile{"", rng.Intn(5)})
@@ -241,7 +286,8 @@ func runC16(r *Run, rng *Rng, thorough bool) {
 					results = append(results, okErr(err))
 					_, dup := registered[p.Name]
 					builtin := p.Name == psa.Profile1Name || p.Name == psa.Profile2Name || p.Name == "" // "" is the default entry
-					wantErr := dup || builtin || p.Kind == 5
+					_, tagOK := p.tag()
+					wantErr := dup || builtin || !tagOK
 					if (err != nil) != wantErr {
 						fail("register-outcome", fmt.Sprintf("RegisterProfile(%q, kind %d): err=%v, expected failure=%v", p.Name, p.Kind, err, wantErr))
 					}
@@ -270,7 +316,8 @@ func runC16(r *Run, rng *Rng, thorough bool) {
 						now := pr.run()
 						declares := false
 						if pr.json != nil {
-							declares = p.Kind < 5 && contains(pr.mentions, lenTags[p.Kind])
+							ptag, pok := p.tag()
+							declares = pok && contains(pr.mentions, ptag)
 						} else {
 							declares = pr.declared == p.Name
 						}
@@ -301,8 +348,8 @@ func runC16(r *Run, rng *Rng, thorough bool) {
 						type nt struct{ name, tag string }
 						cands := []nt{{psa.Profile1Name, "psa-profile"}, {psa.Profile2Name, "eat-profile"}}
 						for _, lp := range registered {
-							if lp.Kind < 5 {
-								cands = append(cands, nt{lp.Name, lenTags[lp.Kind]})
+							if lt, lok := lp.tag(); lok {
+								cands = append(cands, nt{lp.Name, lt})
 							}
 						}
 						a, b := Pick(rng, cands), Pick(rng, cands)
